@@ -553,6 +553,9 @@ func assumptionsList(e *Engine, fvs []*FuncVer) []string {
 		for _, cl := range fv.block.ClausesOf("requires") {
 			out = append(out, fmt.Sprintf("precondition assumed for %s: %s", fv.shortName(), cl.Text))
 		}
+		for n := range fv.trustedCalls {
+			out = append(out, fmt.Sprintf("NOT PROVED: %s establishes the preconditions of %s at its call sites (trustcalls)", fv.shortName(), n))
+		}
 	}
 	return out
 }
